@@ -392,6 +392,19 @@ MUTANTS = [
       "| none => a.hasSeek",
       "| none => false",
       ["C16"], "an object without seekable() but with seek() counts as not seekable"),
+    # ---- ArrayNames (C03, arrays an insertion brings)
+    M("arrn-revert-keeps-foreign-arrays", "ArrayNames", "QModel/ArrayNames.lean",
+      "  | some keep => { sys := dropOthers s.sys keep, saved := none }",
+      "  | some _ => { sys := s.sys, saved := none }",
+      ["C03"], "revert_state leaves the arrays an inserted species brought"),
+    M("arrn-veto-keeps-foreign-arrays", "ArrayNames", "QModel/ArrayNames.lean",
+      "  else (false, { s with sys := dropOthers sys1 before })",
+      "  else (false, { s with sys := sys1 })",
+      ["C03"], "a vetoed placement leaves the arrays of the species on the system"),
+    M("arrn-last-writer-wins", "ArrayNames", "QModel/ArrayNames.lean",
+      "saved := match s.saved with | some k => some k | none => some before })",
+      "saved := some before })",
+      ["C03"], "save_array_names overwrites what an earlier insertion of the same trial remembered"),
     # ---- LogTable (C16, the logger's field table)
     M("logt-center-pad-swapped", "LogTable", "QModel/LogTable.lean",
       "| .center => spaces (n / 2) ++ s ++ spaces (n - n / 2)",
